@@ -621,8 +621,7 @@ def run(ctx, replay=None):
     # 4. both harness builds from the current tree
     exes, errs = build_harnesses()
     if errs:
-        log("MACHINERY-ERROR harness does not compile against %s:\n%s" % (lib.REPO, errs[0][-1500:]))
-        return 2
+        raise lib.MachineryError("harness does not compile against %s:\n%s" % (lib.REPO, errs[0][-6000:]))
 
     # 5. cases
     if replay:
